@@ -7,6 +7,7 @@ import AJ.Model.Graph
 import AJ.Model.Surgery
 import AJ.Model.Build
 import AJ.Model.Dot
+import AJ.Model.DotParse
 import AJ.DriverDyn
 open AJ
 
@@ -155,6 +156,23 @@ def staticRequest (cmd : String) (kv : KV) : Option String := do
       | '"' :: rest => (unquoteChars rest).map fun (p : List Char × List Char) => (String.ofList p.1, p.2.isEmpty)
       | _ => none
     pure (hexOf q ++ " " ++ (match back with | some (b, e) => s!"{decide (b = s)} {e}" | none => "none"))
+  | "parse" =>
+    -- the DOT lexer + parser of the model applied to a text (the real output of dot_format())
+    let txt ← unhex (← kv.get "text")
+    let hx := fun (cs : List Char) => hexOf (String.ofList cs)
+    let attrs := fun (as : DAttrs) =>
+      if as.isEmpty then "-" else ";".intercalate (as.map fun kv => hx kv.1 ++ "=" ++ hx kv.2)
+    let showStmt : DStmt → String
+      | .assign k v => s!"a,{hx k},{hx v}"
+      | .attr k as => s!"t,{hx k},{attrs as}"
+      | .node i as => s!"n,{hx i},{attrs as}"
+      | .edge a b as => s!"e,{hx a},{hx b},{attrs as}"
+      | .openSub none => "o,-"
+      | .openSub (some nm) => s!"o,{hx nm}"
+      | .closeSub => "c"
+    match parseString txt with
+    | none => pure "none"
+    | some (nm, ss) => pure ("ok " ++ (match nm with | some x => hx x | none => "-") ++ " " ++ "|".intercalate (ss.map showStmt))
   | _ =>
   let t ← parseTree kv
   let s ← kv.nat "s"
@@ -208,7 +226,7 @@ def handleLine (line : String) : String :=
   match toks with
   | [] => "bad-request empty"
   | cmd :: rest =>
-    if cmd = "prog" || cmd = "quote" then
+    if cmd = "prog" || cmd = "quote" || cmd = "parse" then
       -- `prog`/`quote` carry hex payloads only: safe to split on spaces
       match Drv.staticRequest cmd (Drv.parseKV rest) with
       | some out => out | none => "bad-request " ++ cmd
